@@ -62,7 +62,10 @@ def dual_rail(z, n):
 
 
 def build_base(n, gates):
-    c = lw.Circuit(2 * n)
+    return apply_gates(lw.Circuit(2 * n), gates)
+
+
+def apply_gates(c, gates):
     for g in gates:
         name = g[0]
         if name in ONE_Q:
@@ -264,7 +267,7 @@ class C15:
 
         def tomo(n, gates, **kw):
             d = dict(kind="tomo", n=n, gates=gates, inp=[0] * n, via="sim", perm=None, drop_zero=False,
-                     dseed=rng.randrange(10**6))
+                     dseed=rng.randrange(10**6), twice=(len(gates) >= 1 and rng.random() < 0.3))
             d.update(kw)
             return d
 
@@ -356,8 +359,12 @@ class C15:
             return self._impl_init(c)
         n = c["n"]
         aux = {"problems": []}
+        twice = k == "tomo" and c.get("twice") and len(c["gates"]) >= 1
         if k == "tomo":
-            base = build_base(n, c["gates"])
+            # twice: the tomography object is first used on a prefix of the base circuit, the base circuit is
+            # then extended IN PLACE and process() is called again: the second call must describe the circuit
+            # as it is then (one circuit per setting = current base circuit + basis changes)
+            base = build_base(n, c["gates"][:-1] if twice else c["gates"])
             inp = []
             for b in c["inp"]:
                 inp += [0, 1] if b else [1, 0]
@@ -369,7 +376,15 @@ class C15:
         received, returned = [], []
         rho_syn = rand_rho(n, c["seed"], c["rank"]) if k == "synthetic" else None
 
+        phase = {"first": bool(twice)}
+
         def experiment(circuits):
+            if phase["first"]:
+                res0 = []
+                for circ in circuits:
+                    items = noiseless_counts(circ, n, inp, c["via"], random.Random(1), False)
+                    res0.append({State(list(s_)): v for s_, v in items})
+                return res0
             out = []
             for idx, circ in enumerate(circuits):
                 lab, prob = decode_setting(circ, before, n)
@@ -405,6 +420,14 @@ class C15:
 
         with _Patch(c.get("perm")) as patch:
             tomo = StateTomography(n, base, experiment)
+            if twice:
+                try:
+                    tomo.process()
+                except Exception:  # noqa: BLE001   (outcome of the first call is not what this case observes)
+                    pass
+                phase["first"] = False
+                apply_gates(base, c["gates"][-1:])
+                before = snapshot(base)
             try:
                 rho = tomo.process()
                 res = {"ok": cmat(rho)}
